@@ -255,6 +255,18 @@ CLAIMED = {
           "plus BL hi-res; |q| <= 9/4 channels per row."),
     technique="TLA+ model (TLC exhaustive) + spec-generated behaviours replayed on the implementation",
     design_ref="DESIGN.md 4.4, 5 (C17)", engine="framelife"),
+ "C19": dict(
+    text=("Split.tla models split_waterfall_generator as a loop over an integer window index and split_array as its two "
+          "nested loops with in-bound flags; TLC checks PieceCount (floor((N-F)/s)+1), PieceCovers ([i s, i s + F)), "
+          "Partition (shifts = tile sizes: every cell in exactly one tile, row-major) and TrimKeepsFullTiles for all "
+          "(N, F, s) up to 9 and all array shapes / tile sizes / shifts / trim flags up to 5x5. Jobs drawn by TLC (up to "
+          "12 channels, 6x6 arrays) run on the real code: band jobs on real .fil files with pixel identities at 6 "
+          "(df, f0) geometries and both orientations (piece count, each piece's data = the file channels TLC names, its "
+          "first-channel frequency, the requested leading integrations, split_fil output loadable and registered, output "
+          "directory re-used across jobs); array jobs tile by tile incl. ragged untrimmed edges and default shifts."),
+    note=("Trusted: TLC, blimpy for reading pieces, pixel identities exact in float32; piece frequencies at 1e-3 channel."),
+    technique="TLA+ model (TLC exhaustive) + spec-generated jobs executed by the implementation",
+    design_ref="DESIGN.md 4.6, 5 (C19)", engine="split"),
 }
 
 NOT_YET = "check not built yet in this round (planned, see DESIGN.md 5); no claim is made"
